@@ -300,8 +300,8 @@ stmt_lets :
 			$$.SetPosition($1[0].Position())
 		} else {
 			if len($1) == 2 && len($3) == 1 {
-				if _, ok := $3[0].(*ast.ItemExpr); ok {
-					$$ = &ast.LetMapItemStmt{LHSS: $1, RHS: $3[0]}
+				if item, ok := mapItemExpr($3[0]); ok {
+					$$ = &ast.LetMapItemStmt{LHSS: $1, RHS: item}
 				} else {
 					$$ = &ast.LetsStmt{LHSS: $1, RHSS: $3}
 				}
